@@ -362,6 +362,8 @@ def run(ctx: Check):
     valid = _corpus() + valid
     lockstep(ctx, "pe-allocator", "C25", valid, impl, monitor, more_cases, nontrivial, procs=procs)
     lockstep(ctx, "pe-allocator-malformed", "C25", malformed, impl, None, None, nontrivial, procs=procs)
+    lockstep(ctx, "pe-allocator-two-callers", "C25", gen_cases2(ctx), impl2, monitor2, more_cases2,
+             lambda c, o: any(x != "-" for l in o[1:] for x in _kv("x " + l)["a"].split(",")), procs=1)
     ctx.count("configurations", len({(c.desc["n"], c.desc["aw"], c.desc["fw"], c.desc["init"]) for c in valid}))
     if ctx.thorough:
         cases = exhaustive_cases(ctx)
@@ -372,7 +374,136 @@ def run(ctx: Check):
              "init masks include negative ones other than -1 (two's complement, init & (2^entries-1))")
 
 
+# ------------------------------------------------------------------ two callers per method
+_sims2: dict[tuple, tuple] = {}
+
+
+def _sim2(n, aw, fw, init):
+    """real allocator with every alloc way and every free way called by two independent transactions; plus the
+    static priority among the two callers of each way, read off the real scheduler"""
+    k = (n, aw, fw, init)
+    if k not in _sims2:
+        from transactron.lib.allocators import PriorityEncoderAllocator
+
+        from ..alloc2 import make_two
+
+        def mk():
+            d = PriorityEncoderAllocator(n, aw, fw, init=init)
+            twice = {f"alloc_w{i}": d.alloc[i] for i in range(aw)} | {f"free_w{j}": d.free[j] for j in range(fw)}
+            return make_two(d, twice, {"peek": d.peek, "replace": d.replace, "clear": d.clear})
+
+        sim = CompSim(mk)
+        tr = sim.run([
+            {"replace": (1 << n) - 1},
+            {(f"alloc_w{i}", c): 0 for i in range(aw) for c in (0, 1)},
+            {(f"free_w{j}", c): 0 for j in range(fw) for c in (0, 1)},
+        ])
+        first = lambda r, name: 1 if (r[(name, 0)] is None and r[(name, 1)] is not None) else 0  # noqa: E731
+        pa = [first(tr[1], f"alloc_w{i}") for i in range(aw)]
+        pf = [first(tr[2], f"free_w{j}") for j in range(fw)]
+        _sims2[k] = (sim, [[v, 1 - v] for v in pa], [[v, 1 - v] for v in pf])
+    return _sims2[k]
+
+
+def impl2(case: Case) -> list[str]:
+    """two-caller run projected onto the single-caller observation format; `dbl=<ways>` is appended when both
+    callers of an exclusive way executed in one cycle"""
+    from ..alloc2 import executed
+
+    d = case.desc
+    n, aw, fw, init = d["n"], d["aw"], d["fw"], d["init"]
+    sim = _sim2(n, aw, fw, init)[0]
+    ops = []
+    for line in case.ops:
+        o = _kv(line)
+        a2 = o["a2"].split("|")
+        f2 = [_flist(x) for x in o["f2"].split("|")]
+        op = {"peek": 0 if o["p"] == "1" else None, "replace": None if o["r"] == "-" else int(o["r"]),
+              "clear": 0 if o["c"] == "1" else None}
+        for c in (0, 1):
+            for i in range(aw):
+                op[(f"alloc_w{i}", c)] = 0 if a2[c][i] == "1" else None
+            for j in range(fw):
+                op[(f"free_w{j}", c)] = f2[c][j]
+        ops.append(op)
+    tr = sim.run(ops, extra=lambda w: [m.ready for m in w.inner.alloc])
+    out = ["ok"]
+    for r in tr:
+        av = [executed(r, f"alloc_w{i}") for i in range(aw)]
+        fv = [executed(r, f"free_w{j}") for j in range(fw)]
+        dbl = ",".join([f"alloc[{i}]" for i in range(aw) if av[i][1]] + [f"free[{j}]" for j in range(fw) if fv[j][1]])
+        a = ",".join("-" if v is None else str(v) for v, _ in av)
+        f = "".join("0" if v is None else "1" for v, _ in fv)
+        p = "-" if r[("peek",)] is None else str(r[("peek",)])
+        out.append(
+            f"a={a} f={f} p={p} r={0 if r[('replace',)] is None else 1} c={0 if r[('clear',)] is None else 1} "
+            f"rdy={''.join(str(x) for x in r['_extra'])}" + (f" dbl={dbl}" if dbl else "")
+        )
+    return out
+
+
+def monitor2(case: Case, out: list[str]):
+    """at most one caller of an exclusive way executes per cycle; the property holds on the executed calls"""
+    for k, o in enumerate(out[1:]):
+        if " dbl=" in o:
+            return (f"cycle {k}: both callers of the exclusive method(s) {o.split('dbl=')[1]} executed in one cycle "
+                    f"(attempts {case.ops[k]}; an alloc way would hand the same identifier to two callers)")
+    return monitor(case, out)
+
+
+def _stream2(rng, n, aw, fw, init, length) -> Case:
+    """two callers per alloc way and per free way attempting independently; every freed identifier is allocated
+    and the identifiers served in one cycle are distinct"""
+    from ..alloc2 import first_of
+
+    _, oa, of = _sim2(n, aw, fw, init)
+    initm = init & ((1 << n) - 1)
+    cf = _clear_first(n, aw, fw, init)
+    free = {k for k in range(n) if (initm >> k) & 1}
+    lines = []
+    for _ in range(length):
+        a2 = [[rng.random() < 0.6 for _ in range(aw)] for _ in range(2)]
+        used = sorted(set(range(n)) - free)
+        rng.shuffle(used)
+        f2 = [[None] * fw, [None] * fw]
+        for j in range(fw):
+            if used and rng.random() < 0.6:
+                x = used.pop()  # both callers of this way ask for the same or (if available) another allocated identifier
+                y = used.pop() if used and rng.random() < 0.5 else x
+                f2[0][j], f2[1][j] = (x if rng.random() < 0.8 else None), (y if rng.random() < 0.8 else None)
+        r = rng.randrange(1 << n) if rng.random() < 0.03 else None
+        c = rng.random() < 0.02
+        a = [a2[0][i] or a2[1][i] for i in range(aw)]
+        f = [first_of(of[j], [f2[0][j], f2[1][j]]) for j in range(fw)]
+        fs = lambda l: ",".join("-" if x is None else str(x) for x in l)  # noqa: E731
+        bits = lambda l: "".join(str(int(x)) for x in l)  # noqa: E731
+        lines.append(f"cyc a={bits(a)} f={fs(f)} p=1 r={'-' if r is None else r} c={int(c)} "
+                     f"a2={bits(a2[0])}|{bits(a2[1])} f2={fs(f2[0])}|{fs(f2[1])}")
+        free = _ref_step(n, initm, free, a, f, r, c, cf)
+    cfg = f"cfg n={n} aw={aw} fw={fw} init={initm} cf={cf}"
+    return Case(cfg, lines, {"component": "PriorityEncoderAllocator", "n": n, "aw": aw, "fw": fw, "init": init, "callers": 2}, "random")
+
+
+def gen_cases2(ctx: Check) -> list[Case]:
+    rng = ctx.rng("two-callers")
+    cfgs = ctx.pick([(1, 1, 1, -1), (3, 2, 2, -1), (5, 3, 1, 0b10110), (8, 2, 2, -1)],
+                    [(n, aw, fw, i) for n in (1, 2, 3, 4, 5, 8, 9) for aw, fw in ((1, 1), (2, 2), (3, 1)) for i in (-1, ~1)])
+    out = []
+    for n, aw, fw, init in cfgs:
+        for _ in range(ctx.pick(2, 4)):
+            out.append(_stream2(rng, n, aw, fw, init, ctx.pick(80, 300)))
+    return out
+
+
+def more_cases2(case: Case, rng):
+    d = case.desc
+    for _ in range(20):
+        yield _stream2(rng, d["n"], d["aw"], d["fw"], d["init"], 100)
+
+
 def replay(ctx: Check, body: dict):
     from ..lockstep import replay_case
 
+    if body.get("desc", {}).get("callers") == 2:
+        return replay_case(body, impl2, monitor2)
     return replay_case(body, impl, monitor)
